@@ -80,13 +80,13 @@ def _validate_one(module, part, tag, cfg, timeout, heap, env, out, lock, chk, na
                 os.remove(p)
 
 
-def validate_parallel(module, events, nproc=8, cfg=None, timeout=1800, heap="3g", env=None, chk=None, name=None):
+def validate_parallel(module, events, nproc=8, cfg=None, timeout=1800, heap="2g", env=None, chk=None, name=None):
     """like trace_util.validate, but the trace is cut into nproc contiguous slices validated by concurrent
     single-worker TLC processes (events are independent of each other in the Trace_* specs used here).
     -> (rejected [(event, failed clauses)], number validated); raises TLCError on machinery failure"""
     if not events:
         return [], 0
-    nproc = max(1, min(nproc, (len(events) + 19) // 20))
+    nproc = max(1, min(nproc, 8, (len(events) + 19) // 20))          # never more than 8 JVMs at a time
     size = (len(events) + nproc - 1) // nproc
     out = {"rejected": [], "done": 0, "errors": []}
     lock = threading.Lock()
